@@ -323,9 +323,53 @@ pub fn run(ctx: &mut Ctx) {
     let cases = ctx.pick(100_000u32, 800_000u32) / ctx.nshards;
     let maxc = ctx.pick(60usize, 200usize);
     ctx.run_prop(case_strategy(maxc), cases, |ctx, c| oracle(ctx, c));
+    // ---- the same history muxed with real time passing between two calls ----
+    // (the harness owns the schedule: one run back to back, one with a pause before a generated
+    // call; the bytes must be equal. Bounded by count, each case costs the pause in wall time only.)
+    ctx.stage("paced");
+    let (n, ms) = ctx.pick((3u32, 1250u64), (10u32, 2600u64));
+    ctx.run_prop((mux::mux_history(3, 24, 0.0), any::<u16>()).prop_map(move |(case, frac)| Paced { case, frac, ms }), n, |ctx, p| paced(ctx, p));
 }
 
-pub fn replay(ctx: &mut Ctx, _stage: &str, case: &Value) -> Check {
+#[derive(Clone, Debug, Serialize, Deserialize)]
+pub struct Paced {
+    pub case: MuxCase,
+    pub frac: u16,
+    pub ms: u64,
+}
+
+fn paced(ctx: &mut Ctx, p: &Paced) -> Check {
+    let (c, frac, ms) = (&p.case, p.frac, p.ms);
+    if c.ops.len() < 2 {
+        ctx.count("paced:history-too-short");
+        return Ok(());
+    }
+    // never before the first call: a pause there precedes all state
+    let at = 1 + ((frac as usize * (c.ops.len() - 1)) >> 16);
+    let (r1, plain) = mux::run_mux_vec(c);
+    if !r1.all_ok || r1.panicked {
+        ctx.count("paced:muxer-rejected(outside-property)");
+        return Ok(());
+    }
+    let c2 = c.clone();
+    let slow = std::thread::spawn(move || {
+        mux::PACE.with(|p| p.set(Some((at, ms))));
+        mux::run_mux_vec(&c2).1
+    })
+    .join()
+    .map_err(|_| Failure::new("c15:mux-thread-panicked", "paced mux run panicked"))?;
+    ensure!(slow == plain, "c15:mux-depends-on-real-time", "the same history muxed with a pause of {} ms before call {} gives different bytes ({} vs {} bytes)", ms, at, slow.len(), plain.len());
+    ctx.count("determinism:mux-with-real-time-pause");
+    ctx.nontrivial(crate::engine::fnv64(format!("paced:{}:{}", at, serde_json::to_string(c).unwrap_or_default()).as_bytes()));
+    ctx.sample("paced", &serde_json::json!({"ops": c.ops.len(), "tracks": c.tracks.len(), "pause_before_call": at, "pause_ms": ms}));
+    Ok(())
+}
+
+pub fn replay(ctx: &mut Ctx, stage: &str, case: &Value) -> Check {
+    if stage == "paced" {
+        let p: Paced = serde_json::from_value(case.clone()).map_err(|e| Failure::new("replay:bad-case", e.to_string()))?;
+        return paced(ctx, &p);
+    }
     let c: Case = serde_json::from_value(case.clone()).map_err(|e| Failure::new("replay:bad-case", e.to_string()))?;
     oracle(ctx, &c)
 }
